@@ -1,10 +1,11 @@
 PROP = {
     'id': 'C19',
     'specs': ['specs.bezier', 'specs.aabb'],
-    'functions': ['mouette.splines.bezier.de_casteljau', 'mouette.geometry.aabb.AABB.is_empty'],
+    'functions': ['mouette.splines.bezier.de_casteljau', 'mouette.splines.bezier.BezierPatch._evaluate_row', 'mouette.splines.bezier.BezierPatch.evaluate', 'mouette.geometry.aabb.AABB.is_empty'],
     'level': 'proof',
     'trusted_base': ['A1 CPython executes the parsed AST as pyvc models it', 'A2 floats are mathematical reals', 'A3 z3 (nlsat) is sound',
-                     'convex hull = intersection of the half-spaces containing all control points (the contract is proved for an arbitrary half-space)'],
+                     'convex hull = intersection of the half-spaces containing all control points (the contract is proved for an arbitrary half-space)',
+                     'BezierPatch: evaluate / _evaluate_row are checked against the contract of de_casteljau (not its body); the control net is a list of non-empty rows of 3-D points'],
     'bounded': [
         {'name': 'all', 'function': 'sampling.sample_sphere/ball/AABB/polyline/surface, BezierCurve/BezierPatch evaluate and exports', 'engine': 'Br (native run-time contract)',
          'bound': '51 seeded cases: 4 centre/radius pairs (radius 1e-3..3, centres != 0) x array/point-cloud; 5 boxes of dimension 1-4 x uniform/grid; polyline with edge lengths 1:2:5; '
